@@ -1289,6 +1289,10 @@ RunResult simulate(const Scenario &sc) {
 				else {
 					expected_paths.insert(a.path);
 					expected_paths.insert(K->resolve(a.path));
+					// two inputs that derive the same output name: pipelines run one after the other, the later one's result stays
+					bool overwritten = false;
+					for (auto &b2 : ex.arts) if (&b2 > &a && b2.path == a.path) overwritten = true;
+					if (overwritten) continue;
 					auto it = K->paths.find(K->resolve(a.path));
 					if (it == K->paths.end()) viol("C17/output-missing", "expected output " + a.path + " does not exist");
 					else if (!K->inodes[it->second].complete || K->inodes[it->second].data != c)
